@@ -51,7 +51,7 @@ class CombinatorOpener:
 
     def open(self, d):
         if d.get('kind') == 'promoted': return d
-        if not any(b['term']['k'] == 'call' and (COMBINATOR.match(T.strip_generics_tail(b['term'].get('r') or b['term'].get('f') or '')) or self._helper(b['term']) or self._conversion(b['term']) or re.search(r'bool>?::(then_some|then)$', T.strip_generics_tail(b['term'].get('r') or b['term'].get('f') or ''))) for b in d['blocks']): return d
+        if not any(b['term']['k'] == 'call' and (COMBINATOR.match(T.strip_generics_tail(b['term'].get('r') or b['term'].get('f') or '')) or self._helper(b['term']) or self._conversion(b['term']) or re.search(r'bool>?::(then_some|then)$', T.strip_generics_tail(b['term'].get('r') or b['term'].get('f') or '')) or self._is_closure_call(b['term'])) for b in d['blocks']): return d
         rw = NZ.Rewriter(d)
         rw.promoted_of = lambda v, callee: v if v in self.F.bodies else (('%s::promoted[%s]' % (callee, re.search(r'::promoted\[(\d+)\]$', v).group(1))) if re.search(r'::promoted\[(\d+)\]$', v) else v)
         for _ in range(60):
@@ -132,7 +132,39 @@ class CombinatorOpener:
         rw.changed = True
         return True
 
+    def _is_closure_call(self, t):
+        cb = self.F.bodies.get(t.get('r') or '') or self.F.bodies.get(t.get('rp') or t.get('fp') or '')
+        return (cb is not None and cb.kind == 'closure') or bool(re.search(r' as std::ops::(Fn|FnMut|FnOnce)<.*>>::(call|call_mut|call_once)$', T.strip_generics_tail(t.get('r') or t.get('f') or '')))
+
+    def _closure_call(self, rw, bi, t):
+        """a local closure called directly (`let at = |f| ..; at("x")`): its body at the place of the call, so that what it returns
+        -- possibly another closure (closure factory), then consumed by map_err / map -- is visible to the steps below"""
+        nm = t.get('rp') or t.get('fp') or t.get('r') or t.get('f') or ''
+        cb = self.F.bodies.get(t.get('r') or '') or self.F.bodies.get(nm)
+        fnlike = re.search(r' as std::ops::(Fn|FnMut|FnOnce)<.*>>::(call|call_mut|call_once)$', T.strip_generics_tail(t.get('r') or t.get('f') or ''))
+        if not ((cb is not None and cb.kind == 'closure') or fnlike) or len(t['args']) != 2: return False
+        fn = self._callable(rw, t['args'][0])
+        if fn is None or fn[0] != 'closure': return False
+        tup = t['args'][1]; n = fn[1]['argc'] - 1
+        if tup['k'] not in ('copy', 'move'): return False
+        d = rw.single_def(tup['pl']['l']) if not tup['pl']['p'] else None
+        if d is not None and d[0] == 'stmt' and d[2]['rv']['k'] == 'agg' and d[2]['rv']['adt'] == 'tuple' and len(d[2]['rv']['ops']) == n:
+            args = list(d[2]['rv']['ops'])
+        else:
+            args = [NZ._mv(tup['pl']['l'], list(tup['pl']['p']) + [{'f': str(i), 'of': 'tuple'}]) for i in range(n)]
+        t['c08_opened'] = True
+        self._invoke(rw, bi, fn, args, t['dst'], t['t'], t.get('span'))
+        rw.changed = True
+        return True
+
     def _one(self, rw):
+        for bi, b in enumerate(rw.blocks):          # calls of local closures first: what they return may be a function argument below
+            t = b['term']
+            if b['cleanup'] or t['k'] != 'call' or t.get('c08_opened') or t['t'] < 0: continue
+            try:
+                if self._closure_call(rw, bi, t): return True
+            except (NZ._GiveUp, KeyError, IndexError, ValueError):
+                t['c08_opened'] = True
         for bi, b in enumerate(rw.blocks):
             t = b['term']
             if b['cleanup'] or t['k'] != 'call' or t.get('c08_opened') or t['t'] < 0: continue
